@@ -457,6 +457,34 @@ def inline_helpers(body, helpers, rules, self_ok=True):
     return body
 
 
+def desugar_loop(b, spec, hdr):
+    if spec[0] == 'enum':
+        _, iv, xv, coll, ety = spec
+        m = re.search(r'for \(%s, %s\) in %s\.iter\(\)\.enumerate\(\) \{' % (re.escape(iv), re.escape(xv), re.escape(coll)), b)
+        head = 'let mut %s: usize = 0; while %s < %s.len() { let %s: &%s = &%s[%s];' % (iv, iv, coll, xv, ety, coll, iv)
+        inc = '%s += 1;' % iv
+    elif spec[0] == 'range':
+        _, cv, hi = spec
+        m = re.search(r'for _ in 0\.\.=%s \{' % re.escape(hi), b)
+        head = 'let mut %s: usize = 0; while %s <= %s as usize {' % (cv, cv, hi)
+        inc = '%s += 1;' % cv
+    else:
+        _, cv, xv, coll = spec
+        m = re.search(r'for %s in &%s \{' % (re.escape(xv), re.escape(coll)), b)
+        head = 'let mut %s: usize = 0; while %s < %s.len() { let %s = &%s[%s];' % (cv, cv, coll, xv, coll, cv)
+        inc = '%s += 1;' % cv
+    if not m:
+        raise Lost('E10 loop %s not found in %s' % (spec, hdr))
+    ob = m.end() - 1
+    cb = match_close(b, ob)
+    # increment on its own line right before the closing brace of the loop
+    ls = b.rfind('\n', 0, cb) + 1
+    indent = b[ls:cb]
+    b = b[:ls] + indent + '    ' + inc + '\n' + b[ls:]
+    b = b[:m.start()] + head + b[m.end():]
+    return b
+
+
 class Emitter:
     def __init__(self, source, specs_dir):
         self.source = source
@@ -615,6 +643,7 @@ class Emitter:
         i += 1
         tags, attrs, renames, loops, hints, subs, contract = [], [], [], {}, [], [], []
         sigsubs = []
+        e10 = []
         mode = None
         cur = contract
         while i < len(lines):
@@ -629,6 +658,19 @@ class Emitter:
                 renames.append((a, b))
             elif s.startswith('//@reveal '):
                 hints.append(('@start', ['        proof { reveal(%s); }' % s.split()[1]]))
+            elif s.startswith('//@enumloop '):
+                # E10: `for (I, X) in C.iter().enumerate() {` -> counter loop; increment inserted before
+                # the loop's own closing brace (found by brace matching, not by text)
+                _, iv, xv, coll, ety = s.split(None, 4)
+                e10.append(('enum', iv, xv, coll, ety))
+            elif s.startswith('//@rangeloop '):
+                # E10: `for _ in 0..=HI {` -> counter loop over usize
+                _, cv, hi = s.split(None, 2)
+                e10.append(('range', cv, hi))
+            elif s.startswith('//@foreach '):
+                # E10: `for X in &C {` -> counter loop
+                _, cv, xv, coll = s.split(None, 3)
+                e10.append(('each', cv, xv, coll))
             elif s.startswith('//@sigsub '):
                 a, b = s[len('//@sigsub '):].split(' => ', 1)
                 sigsubs.append((a.strip(), b))
@@ -717,6 +759,9 @@ class Emitter:
             if b2 != b:
                 rules.append('E6')
                 b = b2
+            for spec in e10:
+                b = desugar_loop(b, spec, hdr)
+                rules.append('E10:' + spec[0])
             for a, rep in subs:
                 b2, k = re.subn(a, rep, b)
                 if k == 0:
